@@ -41,6 +41,13 @@ func vFrontEnd(files ...[]byte) (ok bool) {
 		vrt.Assert(!c.Errs.HasError(), "success-without-errors")
 		vrt.Assert(c.ParserGrammar != nil && c.ParserTable != nil && c.LexerModes != nil, "success-has-grammar-table-modes")
 		vrt.Assert(!c.ParserTable.HasConflicts, "success-without-conflicts")
+		if vrt.Param("emit", 0) == 1 {
+			// go on into the lexer emitter (template engine stubbed under the
+			// engine, real natively): an accepted specification must not make
+			// it panic either
+			vEmitLexer(c)
+			vrt.Reach("emitted")
+		}
 	} else {
 		vrt.Reach("rejected")
 		vrt.Assert(sink.writes > 0 && sink.bytes > 0, "rejection-prints-a-diagnostic")
